@@ -211,7 +211,7 @@ template <Kind K, typename S, bool Transparent, bool Impl>
 void observers(Out& o, S& s, S& t, std::size_t cap)
 {
     S const& cs = s;
-    o.tok("#").num(static_cast<i64>(cs.size())).b(cs.empty());
+    o.tok("S").num(static_cast<i64>(cs.size())).b(cs.empty());
     if constexpr (Impl) {
         if constexpr (K == Kind::static_set) { o.b(cs.full()); } else { o.b(cs.size() == cs.max_size()); }
         o.num(static_cast<i64>(cs.max_size()));
